@@ -953,16 +953,21 @@ void Parser::ParserImpl::loadVariable(const VariablePtr &variable, const XmlNode
         } else if (attribute->isType("initial_value")) {
             variable->setInitialValue(attribute->value());
         } else if (mParsing1XVersion && attribute->isType("public_interface")) {
-            if (variable->hasInterfaceType(Variable::InterfaceType::PRIVATE)) {
-                variable->setInterfaceType(Variable::InterfaceType::PUBLIC_AND_PRIVATE);
-            } else {
-                variable->setInterfaceType(Variable::InterfaceType::PUBLIC);
+            // A CellML 1.x interface of "none" (the default) means that there is no interface.
+            if (attribute->value() != "none") {
+                if (variable->hasInterfaceType(Variable::InterfaceType::PRIVATE)) {
+                    variable->setInterfaceType(Variable::InterfaceType::PUBLIC_AND_PRIVATE);
+                } else {
+                    variable->setInterfaceType(Variable::InterfaceType::PUBLIC);
+                }
             }
         } else if (mParsing1XVersion && attribute->isType("private_interface")) {
-            if (variable->hasInterfaceType(Variable::InterfaceType::PUBLIC)) {
-                variable->setInterfaceType(Variable::InterfaceType::PUBLIC_AND_PRIVATE);
-            } else {
-                variable->setInterfaceType(Variable::InterfaceType::PRIVATE);
+            if (attribute->value() != "none") {
+                if (variable->hasInterfaceType(Variable::InterfaceType::PUBLIC)) {
+                    variable->setInterfaceType(Variable::InterfaceType::PUBLIC_AND_PRIVATE);
+                } else {
+                    variable->setInterfaceType(Variable::InterfaceType::PRIVATE);
+                }
             }
         } else {
             auto issue = Issue::IssueImpl::create();
